@@ -140,20 +140,31 @@ func wideMapCase(k *engine.Case) {
 	pool := genPool(k, rt, 4+r.Intn(20), "map")
 	nops := 30 + r.Intn(90)
 	val := 0
+	// a map stores any value: in one case of four the values are slices (not comparable with ==)
+	boxed := r.Intn(4) == 0
+	if boxed {
+		k.Count("map_cases_with_slice_values", 1)
+	}
+	box := func(v int) interface{} {
+		if boxed {
+			return []int{v}
+		}
+		return v
+	}
 	for i := 0; i < nops; i++ {
 		key := pickKey(r, pool, rt)
 		switch x := r.Intn(10); {
 		case x < 4:
 			val++
-			wide.Set(key.v, val)
-			single.Set(key.v, val)
+			wide.Set(key.v, box(val))
+			single.Set(key.v, box(val))
 			k.Logf("Set(%s,%d)", key.repr, val)
 			k.Count("map_set", 1)
 		case x < 7:
 			wv, wok := wide.Get(key.v)
 			sv, sok := single.Get(key.v)
 			k.Logf("Get(%s) wide=(%v,%v) single=(%v,%v)", key.repr, wv, wok, sv, sok)
-			if wok != sok || wv != sv {
+			if wok != sok || !sameVal(wv, sv) {
 				k.Fail("container-answer", "%s: Get(%s) sharded = (%v,%v), unsharded = (%v,%v)", rt, key.repr, wv, wok, sv, sok)
 				return
 			}
@@ -185,7 +196,7 @@ func wideMapCase(k *engine.Case) {
 		wv, wok := wide.Get(pool[i].v)
 		sv, sok := single.Get(pool[i].v)
 		we, se := wide.Exist(pool[i].v), single.Exist(pool[i].v)
-		if wok != sok || wv != sv || we != se {
+		if wok != sok || !sameVal(wv, sv) || we != se {
 			k.Logf("final Get(%s) wide=(%v,%v) single=(%v,%v) Exist wide=%v single=%v", pool[i].repr, wv, wok, sv, sok, we, se)
 			k.Fail("container-answer", "%s: final sweep, key %s: sharded Get=(%v,%v) Exist=%v, unsharded Get=(%v,%v) Exist=%v",
 				rt, pool[i].repr, wv, wok, we, sv, sok, se)
@@ -194,6 +205,16 @@ func wideMapCase(k *engine.Case) {
 	}
 	k.Count("map_cases", 1)
 	k.Count("map_ops", int64(nops))
+}
+
+// sameVal compares stored values (ints, or one-element int slices).
+func sameVal(a, b interface{}) bool {
+	as, aok := a.([]int)
+	bs, bok := b.([]int)
+	if aok || bok {
+		return aok && bok && len(as) == 1 && len(bs) == 1 && as[0] == bs[0]
+	}
+	return a == b
 }
 
 // ---------------------------------------------------------------- wide LRUs vs single LRU
@@ -277,6 +298,37 @@ func wideLRUCase(k *engine.Case) {
 		k.Count("lru_cases_cache", 1)
 	}
 	k.Logf("%s %s capacity=%d vs single LRU", name, rt, capacity)
+	if r.Intn(8) == 0 {
+		// a capacity below the number of shards (every shard still gets capacity/n+1 >= 1):
+		// one key alive at a time, so nothing is ever evicted and every answer is determined
+		small := int64(1 + r.Intn(int(rt.eff())+1))
+		var w lruAPI
+		switch {
+		case useTiny && rt.xhash:
+			w = tinyAPI(tiny.NewWideXHashLRU(small, rt.opts()...))
+		case useTiny:
+			w = tinyAPI(tiny.NeWideLRU(small, rt.opts()...))
+		case rt.xhash:
+			w = cacheAPI(cache.NewWideXHashLRUCache(small, rt.opts()...))
+		default:
+			w = cacheAPI(cache.NeWideLRUCache(small, rt.opts()...))
+		}
+		k.Logf("(first: the same wide cache with capacity %d, below its %d shards, one key at a time)", small, rt.eff())
+		k.Count("lru_cases_capacity_below_shards", 1)
+		kp := genPool(k, rt, 6+r.Intn(20), "lru")
+		for i := range kp {
+			w.set(kp[i].v, i+1, 1)
+			v, ok := w.get(kp[i].v)
+			if !ok || !w.exist(kp[i].v) {
+				k.Fail("container-answer", "%s %s capacity=%d: Set(%s) on the empty cache, then Get = (%v,%v), Exist = %v; an unsharded LRU of any capacity >= 1 holds the entry", name, rt, small, kp[i].repr, v, ok, w.exist(kp[i].v))
+				return
+			}
+			if !w.del(kp[i].v) || w.exist(kp[i].v) {
+				k.Fail("container-answer", "%s %s capacity=%d: Delete(%s) of the only entry failed or left it", name, rt, small, kp[i].repr)
+				return
+			}
+		}
+	}
 	pool := genPool(k, rt, 4+r.Intn(20), "lru")
 	nops := 30 + r.Intn(120)
 	val := 0
